@@ -11,7 +11,7 @@ trap 'git -C /repo worktree remove --force "$W/repo" >/dev/null 2>&1; rm -rf "$W
 git -C /repo worktree add -q --detach "$W/repo" HEAD || exit 3
 DEMO=$(ls "$SRC"/*_test.go 2>/dev/null | head -1)
 PKG=""
-if [ -f "$SRC/run.txt" ]; then PKG=$(grep -m1 -o 'cp [^ ]*_test\.go [^ ]*' "$SRC/run.txt" | awk '{print $3}' | xargs -r dirname | sed "s#^/tmp/seed-[A-Z0-9]*/##; s#^\./##"); fi
+if [ -f "$SRC/run.txt" ]; then PKG=$(grep -m1 -o 'cp [^ ]*_test\.go [^ ]*' "$SRC/run.txt" | awk '{print $3}' | xargs -r dirname | sed "s#^/tmp/seed[0-9]*-[A-Z0-9]*/##; s#^\./##"); fi
 if [ -n "$PKG" ] && [ ! -d "$W/repo/$PKG" ]; then PKG=""; fi
 if [ -z "$PKG" ] && [ -n "$DEMO" ]; then P=$(grep -m1 '^package ' "$DEMO" | awk '{print $2}' | sed 's/_test$//'); PKG=$(cd "$W/repo" && grep -rl --include=*.go "^package $P\$" internal cmd | head -1 | xargs dirname); fi
 res_clean=na; res_patched=na; suite=na; applies=yes
